@@ -213,6 +213,13 @@ func (r *Run) checkAuthorizeResponse(cs *ClientSpec, q url.Values, res *Resp, pu
 	}
 	if target != nil {
 		r.stat("authz-redirects")
+		if res.FormPost != nil && q.Get("response_mode") == SimResponseMode {
+			if res.Err != nil {
+				r.probe("authz-custom-response-mode:error")
+			} else {
+				r.probe("authz-custom-response-mode:success")
+			}
+		}
 		if res.FormPost != nil {
 			r.probe("authz-redirect:form_post")
 		} else if len(res.Fragment) > 0 {
